@@ -200,7 +200,7 @@ class G:
             name = self.pick(self.avail(U_BIN))[0]
             a, b = self.U(o), self.U(o)
             if name == "Minus" and self.chance(7):
-                a = ["nary", "Add", [a, ["int", self.pick([1000, 5000, 2**32])]]] if a[0] != "int" else ["int", a[1] + 1000]
+                a = ["nary", "Add", [a, ["int", self.pick([1000, 5000, 2**32])]]] if a[0] != "int" else ["int", min(a[1] + 1000, 2**64 - 1)]
                 b = b if b[0] != "int" else ["int", b[1] % 1000]
             if name in ("Div", "Mod") and self.chance(8):
                 b = ["int", self.i(1, 9)] if self.chance(5) else ["nary", "Add", [b, ["int", 1]]]
